@@ -28,35 +28,36 @@ import (
 type FaultKind int
 
 const (
-	FaultNone   FaultKind = iota
-	FaultAbsent           // not found
-	FaultError            // I/O error
-	FaultStall            // never completes until the context ends
-	FaultDeadline         // the store gave up on this block under a deadline of its OWN: a wrapped context.DeadlineExceeded, although the caller's context is alive
-	FaultCanceled         // likewise, a wrapped context.Canceled (the store's own request was cancelled)
+	FaultNone     FaultKind = iota
+	FaultAbsent             // not found
+	FaultError              // I/O error
+	FaultStall              // never completes until the context ends
+	FaultDeadline           // the store gave up on this block under a deadline of its OWN: a wrapped context.DeadlineExceeded, although the caller's context is alive
+	FaultCanceled           // likewise, a wrapped context.Canceled (the store's own request was cancelled)
 )
 
 var ErrInjected = errors.New("fakeipfs: injected error")
 
 type Store struct {
-	mu      sync.Mutex
-	blocks  map[cid.Cid][]byte
-	index   map[cid.Cid]int // cid -> index of first write
-	writes  []cid.Cid       // first-time writes in order
-	adds    []cid.Cid       // every Add call in order
-	gets    []cid.Cid       // every Get call in order (incl. failing ones)
-	faults  map[cid.Cid]FaultKind
-	addFail func(nth int, c cid.Cid) error // optional; nth = number of Add calls so far (0-based)
-	gate    *Gate
-	events  atomic.Int64
-	pins    []string
-	pinFail func(nth int) error
-	ghosts  map[cid.Cid][]byte // bytes of removed blocks, for prefix views taken before the removal
-	removed map[cid.Cid]int    // cid -> number of distinct writes when the block was removed (absent = alive)
-	removes []cid.Cid          // every successful Remove in order
-	whole   *api
-	delay   time.Duration // every read takes this long (or until its context ends)
-	addHold func(nth int, c cid.Cid) <-chan struct{} // optional: a write waits on the returned channel before it lands
+	mu       sync.Mutex
+	blocks   map[cid.Cid][]byte
+	index    map[cid.Cid]int // cid -> index of first write
+	writes   []cid.Cid       // first-time writes in order
+	adds     []cid.Cid       // every Add call in order
+	gets     []cid.Cid       // every Get call in order (incl. failing ones)
+	faults   map[cid.Cid]FaultKind
+	keepRefs bool
+	addFail  func(nth int, c cid.Cid) error // optional; nth = number of Add calls so far (0-based)
+	gate     *Gate
+	events   atomic.Int64
+	pins     []string
+	pinFail  func(nth int) error
+	ghosts   map[cid.Cid][]byte // bytes of removed blocks, for prefix views taken before the removal
+	removed  map[cid.Cid]int    // cid -> number of distinct writes when the block was removed (absent = alive)
+	removes  []cid.Cid          // every successful Remove in order
+	whole    *api
+	delay    time.Duration                            // every read takes this long (or until its context ends)
+	addHold  func(nth int, c cid.Cid) <-chan struct{} // optional: a write waits on the returned channel before it lands
 }
 
 // SetAddHold installs a function asked before every block write lands; a non-nil channel makes that write wait
@@ -69,6 +70,14 @@ func (s *Store) SetAddHold(f func(nth int, c cid.Cid) <-chan struct{}) {
 
 // SetDelay makes every read take d (real time) before it is answered; a read whose context ends first returns the
 // context's error.
+// SetKeepRefs makes the store keep the very byte slices it is handed by Add instead of copying them, as in-memory
+// datastores do: a writer that reuses a buffer after the write then alters the stored block.
+func (s *Store) SetKeepRefs(on bool) {
+	s.mu.Lock()
+	defer s.mu.Unlock()
+	s.keepRefs = on
+}
+
 func (s *Store) SetDelay(d time.Duration) {
 	s.mu.Lock()
 	defer s.mu.Unlock()
@@ -307,7 +316,11 @@ func (d *dagSvc) Add(ctx context.Context, n format.Node) error {
 			s.mu.Lock()
 		}
 	}
-	s.putLocked(n.Cid(), append([]byte(nil), n.RawData()...))
+	data := n.RawData()
+	if !s.keepRefs {
+		data = append([]byte(nil), data...)
+	}
+	s.putLocked(n.Cid(), data)
 	s.mu.Unlock()
 	return nil
 }
